@@ -565,7 +565,7 @@ class Judge:
             ctx.count("judged:isolated-free-exact")
             if len(self.free) == 1 and first_stage_one_iteration:
                 ctx.count("judged:one-free-point-one-iteration")
-            if float(np.max(np.abs(X[k] - mean))) > 1e-12 * ext:
+            if not (float(np.max(np.abs(X[k] - mean))) <= 1e-12 * ext):
                 single = ":single-free-point" if len(self.free) == 1 else ""
                 ctx.violation(f"free-point-not-on-mean-of-held-neighbours:{kind}{single}",
                               f"{self.describe()}: free node {k} (valence {len(self.nbrs[k])}, all neighbours boundary/fixed) is at "
@@ -577,7 +577,7 @@ class Judge:
         # contraction -----------------------------------------------------------------------------
         e = self.err(X)
         ctx.count("judged:contraction")
-        if e > self.err_prev + 1e-12 * ext:
+        if not (e <= self.err_prev + 1e-12 * ext):
             ctx.violation(f"distance-to-harmonic-solution-grew:{kind}",
                           f"{self.describe()}: max-norm distance of the free nodes to the solution of 'each = mean of its "
                           f"edge neighbours' grew from {self.err_prev:.6g} to {e:.6g} during smooth() call #{self.calls}")
@@ -592,7 +592,7 @@ class Judge:
                 d = float(np.max(np.abs(X[k] - mean)))
                 if d > worst:
                     worst, wk = d, k
-            if worst > 1e-9 * ext or e > 1e-9 * ext:
+            if not (worst <= 1e-9 * ext and e <= 1e-9 * ext):
                 ctx.violation(f"not-converged-to-neighbour-mean:{kind}",
                               f"{self.describe()}: after {self.sweeps} iterations (Jacobi bound {self.bound():.3g}, rho "
                               f"{self.rho:.4f}) free node {wk} is {worst:.3g} away from the mean of its edge neighbours "
@@ -602,7 +602,7 @@ class Judge:
                 ctx.count(f"judged:regular-lattice:{kind}")
                 lat = np.array(self.case["lattice"], dtype=float)
                 d = float(np.max(np.abs(X - lat)))
-                if d > 1e-8 * ext:
+                if not (d <= 1e-8 * ext):
                     ctx.violation(f"regular-boundary-not-regular-lattice:{kind}",
                                   f"{self.describe()}: regular boundary, {self.sweeps} iterations, but the points are up to {d:.3g} "
                                   f"off the regular lattice (ext {ext:.3g})")
